@@ -27,9 +27,11 @@ import (
 	"github.com/logrange/range/pkg/records/chunk"
 	"github.com/logrange/range/pkg/records/chunk/chunkfs"
 	"github.com/logrange/range/pkg/records/journal"
+	"github.com/logrange/range/pkg/records/journal/ctrlr"
 	"github.com/logrange/range/pkg/utils/bytes"
 	errors2 "github.com/logrange/range/pkg/utils/errors"
 	"github.com/pkg/errors"
+	"io"
 	"os"
 	"sort"
 	"time"
@@ -43,6 +45,8 @@ type (
 		TIndex    tindex.Service     `inject:""`
 		MainCtx   context.Context    `inject:"mainCtx"`
 		TsIndexer tmindex.TsIndexer  `inject:""`
+		// JCfg is used for learning the maximum record size the journals can serve back
+		JCfg ctrlr.JournalControllerConfig `inject:"JournalControllerConfig,optional"`
 
 		logger log4g.Logger
 		weCh   chan WriteEvent
@@ -180,6 +184,7 @@ func (s *Service) Write(ctx context.Context, tags string, lit model.Iterator, no
 	var iw iwrapper
 	iw.pool = s.Pool
 	iw.it = lit
+	iw.maxRecSize = s.maxRecordSize()
 
 	var we WriteEvent
 	weInit := false
@@ -206,6 +211,10 @@ func (s *Service) Write(ctx context.Context, tags string, lit model.Iterator, no
 		}
 
 		if _, err1 = iw.Get(ctx); err1 != nil {
+			if err1 != io.EOF {
+				// the iterator failed (e.g. a record, which could not be read back): the write must not be acknowledged
+				err = errors.Wrapf(err1, "could not write all records to the partition %s by tags=%s", src, tags)
+			}
 			break
 		}
 	}
@@ -218,6 +227,18 @@ func (s *Service) Write(ctx context.Context, tags string, lit model.Iterator, no
 	s.TIndex.Release(src)
 	iw.close() // free resources
 	return err
+}
+
+// maxRecordSize returns the maximum size of a record, that can be read from a chunk, or 0 if it is not known
+func (s *Service) maxRecordSize() int64 {
+	if s.JCfg == nil {
+		return 0
+	}
+	mrs := s.JCfg.GetChunkConfig().MaxRecordSize
+	if mrs <= 0 {
+		mrs = chunkfs.ChnkMaxRecordSize
+	}
+	return mrs
 }
 
 // GetJournals is part of cursor.JournalsProvider
